@@ -148,4 +148,24 @@ theorem paramNames_spec (t : Tree) (hts : topSkipShadows t = false)
   rw [eligible_iff_leafParam t hts hnd l hl]
   cases eligible t l <;> simp
 
+/-- a `filterMap` over the generator's list that ignores shadowed entries and markers is the same
+    `filterMap` over the visible, non-skipped leaves of the struct -/
+theorem flatten_filterMap_leaves {β : Type} (t : Tree) (g : Field → Option β) :
+    (flatten t).filterMap (fun f => if f.isShadowed || f.isEmbeded then none else g f) =
+      (leavesTop t).filterMap (fun l =>
+        if l.info.skip || genShadow t l.depth l.info.name then none
+        else g (mkField (genShadow t) l.depth l.marked l.info l.top)) := by
+  rw [flatten_closed]
+  rw [filterMap_filter_none _ (fun f => !f.isEmbeded)
+    (by intro f hf; simp only [Bool.not_eq_eq_eq_not, Bool.not_false] at hf; simp [hf])]
+  unfold walkTop
+  rw [walk_fields _ t true [] false 0, List.filterMap_map, List.filterMap_filter]
+  apply filterMap_congr_mem
+  intro l _
+  unfold genShadow walkTop
+  by_cases hs : l.info.skip
+  · simp [hs]
+  · simp only [hs, Bool.not_false, ↓reduceIte, Function.comp, Bool.false_or]
+    simp only [mkField, Bool.or_false]
+
 end ShootVerif.Ctor
